@@ -101,8 +101,18 @@ def size_of(t):
 # --------------------------------------------------------------------------------------------
 # real objects
 
+def _prop(p):
+    if p[0] == "dur":
+        return {1: P.seconds, 60: P.minutes, 3600: P.hours, 86400: P.days}[p[1]]
+    return {"start": P.start, "end": P.end}[p[0]] if p[0] in ("start", "end") else P.field(p[1])
+
+
 def build_filter(f):
     k = f["k"]
+    if k == "cmpp":
+        # a property compared with another property (both sides are resolved per event)
+        l, r = _prop(f["p"]), _prop(f["q"])
+        return {"ge": l >= r, "le": l <= r, "gt": l > r, "lt": l < r, "eq": l == r, "ne": l != r}[f["c"]]
     if k in ("cmp", "oneof"):
         p = f["p"]
         if p[0] == "dur":
@@ -117,11 +127,13 @@ def build_filter(f):
             v = pyval(f["v"])
             return {"ge": prop >= v, "le": prop <= v, "gt": prop > v, "lt": prop < v,
                     "eq": prop == v, "ne": prop != v}[f["c"]]
-        return P.one_of(prop, [pyval(v) for v in f["vs"]])
+        # `values` is declared Iterable: hand over a one-shot iterator (a generator), which the
+        # filter must have consumed when it was built — evaluating it later must not depend on it
+        return P.one_of(prop, (pyval(v) for v in f["vs"]))
     if k == "hasany":
-        return P.has_any(P.field("tags"), f["vs"])
+        return P.has_any(P.field("tags"), iter(list(f["vs"])))
     if k == "hasall":
-        return P.has_all(P.field("tags"), f["vs"])
+        return P.has_all(P.field("tags"), (v for v in f["vs"]))
     subs = [build_filter(g) for g in f["fs"]]
     acc = subs[0]
     for g in subs[1:]:
@@ -236,6 +248,8 @@ def coq_filter(f):
     k = f["k"]
     if k == "cmp":
         return f"(FCmp {coq_prop(f['p'])} {f['c'].capitalize()} {coq_val(f['v'])})"
+    if k == "cmpp":
+        return f"(FCmpP {coq_prop(f['p'])} {f['c'].capitalize()} {coq_prop(f['q'])})"
     if k == "oneof":
         return f"(FOneOf {coq_prop(f['p'])} {clist([coq_val(v) for v in f['vs']])})"
     if k == "hasany":
@@ -422,6 +436,10 @@ class Gen:
             return {"k": r.choice(["and", "or"]),
                     "fs": [self.filt(depth - 1, fields) for _ in range(r.choice([2, 2, 3]))]}
         k = r.random()
+        if r.random() < 0.08:
+            props = [["dur", 1], ["dur", 60], ["start"], ["end"]]
+            return {"k": "cmpp", "p": r.choice(props), "c": r.choice(["ge", "le", "gt", "lt", "eq", "ne"]),
+                    "q": r.choice(props)}
         if k < 0.35 or not fields:
             p = r.choice([["dur", 1], ["dur", 1], ["dur", 60], ["start"], ["end"]])
             if p[0] == "dur" and p[1] == 60:
